@@ -348,6 +348,19 @@ class Gen:
         nss = ['iso'] + (['joliet'] if cfg.joliet else []) + (['udf'] if cfg.udf else [])
         nns = r.choice(nss)
         op = {'op': 'add_hard_link', 'old': old}
+        if old[0] == nns and nns in ('iso', 'joliet') and r.random() < 0.3:
+            # the same identifier in another directory: two records of one content that differ in
+            # nothing but their parent
+            base = old[1].rsplit('/', 1)[1]
+            here = old[1].rsplit('/', 1)[0] or '/'
+            others = [d for d in model.dirs(nns) if d != here and join(d, base) not in model.ns[nns]
+                      and (nns != 'iso' or model.depth(d) < self.max_depth)]
+            if others:
+                op['new'] = (nns, join(r.choice(others), base))
+                if nns == 'iso' and cfg.rr:
+                    node = model.ns['iso'][old[1]]
+                    op['rr_name'] = node.rr_name if node.rr_name and r.random() < 0.7 else self.rr_name()
+                return op
         if nns == 'iso':
             op['new'] = ('iso', join(self.pick_dir(model, 'iso', self.max_depth), self.iso_file_name(cfg.level)))
             if cfg.rr:
